@@ -449,7 +449,14 @@ func c17Matrix(c *mc.Ctx) {
 	api := c.Pick("api", len(c17APIs))
 	v := c17Values[vi]
 	tg := c17Targets[ti]
-	c.Case(func() string { return fmt.Sprintf("%s of %s into %s", c17APIs[api], v, tg.name) })
+	prefill := c.Pick("prefill", 2) == 1
+	c.Case(func() string {
+		s := fmt.Sprintf("%s of %s into %s", c17APIs[api], v, tg.name)
+		if prefill {
+			s += " (target already holds another value)"
+		}
+		return s
+	})
 	c.Class(tg.name)
 	var data []byte
 	if api == 0 {
@@ -458,6 +465,14 @@ func c17Matrix(c *mc.Ctx) {
 		data = reftext.Print(rm.Canon{}, []*rm.Value{v})
 	}
 	target := reflect.New(tg.typ)
+	if prefill {
+		// the target already holds some other value (a reused variable): what it held must not show
+		// through. Nulls, and maps/structs (whose members are merged), are left to the fresh-target run.
+		if v.Null || !c17Prefill(target.Elem()) {
+			c.Skip("no prefilled variant for this cell")
+			return
+		}
+	}
 	var err error
 	pan := drive.Safe(func() {
 		switch api {
@@ -495,6 +510,68 @@ func c17Matrix(c *mc.Ctx) {
 	}
 	c.Observe(v.String(), api, verdict, err != nil)
 	c.Nontrivial()
+}
+
+// c17Prefill stores a non-zero value of v's type in v (slices get 5 elements); false when the
+// type has no prefilled variant.
+func c17Prefill(v reflect.Value) bool {
+	switch v.Type() {
+	case reflect.TypeOf(ion.Timestamp{}):
+		v.Set(reflect.ValueOf(ion.NewTimestamp(time.Date(1977, 7, 7, 7, 7, 7, 0, time.UTC), ion.TimestampPrecisionSecond, ion.TimezoneUTC)))
+		return true
+	case reflect.TypeOf(ion.Decimal{}):
+		v.Set(reflect.ValueOf(*ion.MustParseDecimal("7.5")))
+		return true
+	case reflect.TypeOf(big.Int{}):
+		v.Set(reflect.ValueOf(*big.NewInt(7)))
+		return true
+	case reflect.TypeOf(ion.SymbolToken{}):
+		v.Set(reflect.ValueOf(ion.NewSymbolTokenFromString("junk")))
+		return true
+	case reflect.TypeOf(time.Time{}):
+		v.Set(reflect.ValueOf(time.Unix(7, 0).UTC()))
+		return true
+	}
+	switch v.Kind() {
+	case reflect.Bool:
+		v.SetBool(true)
+	case reflect.Int, reflect.Int8, reflect.Int16, reflect.Int32, reflect.Int64:
+		v.SetInt(7)
+	case reflect.Uint, reflect.Uint8, reflect.Uint16, reflect.Uint32, reflect.Uint64:
+		v.SetUint(7)
+	case reflect.Float32, reflect.Float64:
+		v.SetFloat(7.5)
+	case reflect.String:
+		v.SetString("junk")
+	case reflect.Interface:
+		if v.NumMethod() != 0 {
+			return false
+		}
+		v.Set(reflect.ValueOf("junk"))
+	case reflect.Slice:
+		s := reflect.MakeSlice(v.Type(), 5, 5)
+		for i := 0; i < 5; i++ {
+			if !c17Prefill(s.Index(i)) {
+				return false
+			}
+		}
+		v.Set(s)
+	case reflect.Array:
+		for i := 0; i < v.Len(); i++ {
+			if !c17Prefill(v.Index(i)) {
+				return false
+			}
+		}
+	case reflect.Ptr:
+		p := reflect.New(v.Type().Elem())
+		if !c17Prefill(p.Elem()) {
+			return false
+		}
+		v.Set(p)
+	default:
+		return false
+	}
+	return true
 }
 
 // Decoder over a stream of n values yields them one per call, then ErrNoInput.
@@ -616,14 +693,93 @@ func c17Structs(c *mc.Ctx) {
 	c.Nontrivial()
 }
 
+// One Decoder, one target variable reused for every value of a stream of lists of 0..3 ints:
+// after each DecodeTo the variable holds exactly that list.
+func c17Reuse(c *mc.Ctx) {
+	kind := c.Shard("target", 4)
+	binary := c.Pick("format", 2) == 1
+	var vals []*rm.Value
+	var lens []int
+	next := int64(1)
+	for i := 0; i < 3; i++ {
+		n := c.Pick("len", 4)
+		l := rm.ListV()
+		for k := 0; k < n; k++ {
+			l.Kids = append(l.Kids, rm.IntV(next))
+			next++
+		}
+		vals = append(vals, l)
+		lens = append(lens, n)
+	}
+	var data []byte
+	if binary {
+		data = refbin.EncodeStream(rm.Canon{}, vals)
+	} else {
+		data = reftext.Print(rm.Canon{}, vals)
+	}
+	names := []string{"[]int", "[]interface{}", "[3]int", "interface{}"}
+	c.Case(func() string {
+		return fmt.Sprintf("Decoder over %s binary=%v, every value into the same %s variable", rm.StreamString(vals), binary, names[kind])
+	})
+	c.Class("reuse")
+	var target reflect.Value
+	switch kind {
+	case 0:
+		target = reflect.ValueOf(new([]int))
+	case 1:
+		target = reflect.ValueOf(new([]interface{}))
+	case 2:
+		target = reflect.ValueOf(new([3]int))
+	default:
+		target = reflect.ValueOf(new(interface{}))
+	}
+	var d *ion.Decoder
+	if failPanic(c, drive.Safe(func() { d = ion.NewDecoder(ion.NewReaderBytes(data)) })) {
+		return
+	}
+	for i, want := range vals {
+		var err error
+		if failPanic(c, drive.Safe(func() { err = d.DecodeTo(target.Interface()) })) {
+			return
+		}
+		c.Step(1)
+		if err != nil {
+			c.Fail("unexpected-error", "reuse", "value #%d: %v", i, err)
+			return
+		}
+		img := ionImage(target.Elem(), 0, true)
+		if kind == 2 {
+			// an array keeps its length: the remaining elements must be zero
+			w := want.Clone()
+			for len(w.Kids) < 3 {
+				w.Kids = append(w.Kids, rm.IntV(0))
+			}
+			want = w
+		}
+		if kind == 3 && len(want.Kids) == 0 && img.Null {
+			// Decode of [] into interface{} yields []interface{}(nil) (pinned by the repository's TestDecode):
+			// a slice of length 0, which is what the list holds
+			continue
+		}
+		if df := rm.Diff(want, img); df != "" {
+			c.Fail("value-mismatch", "reuse:"+names[kind], "value #%d decoded into the reused variable as %s, want %s: %s", i, img, want, df)
+			return
+		}
+	}
+	c.Observe(fmt.Sprint(lens), kind)
+	c.Nontrivial()
+}
+
 func c17Body(c *mc.Ctx) {
-	switch c.Pick("part", 3) {
+	switch c.Pick("part", 4) {
 	case 0:
 		c17Matrix(c)
 	case 1:
 		c17Stream(c)
-	default:
+	case 2:
 		c17Structs(c)
+	default:
+		c17Reuse(c)
 	}
 }
 
@@ -631,7 +787,7 @@ func init() {
 	mc.Register(&mc.Check{
 		ID:    "C17",
 		Title: "Unmarshal either fills the target faithfully or returns an error",
-		Rule: "the full matrix of 86 Ion values (typed nulls, bools, integers at every Go width boundary ±1 up to 2^100, floats incl. beyond float32 range / inf / NaN / -0, decimals, timestamps, symbols with and without text, strings, lobs of 0/2/3/4 bytes, lists, sexps, structs incl. repeated and unknown fields, annotated values) x 38 target types (every integer width, floats, string, []byte, [3]byte, slices, arrays, maps, a struct, pointers, interface{}, Timestamp, Decimal, big.Int, SymbolToken, time.Time, annotation wrapper structs incl. the README's []string form) x {Unmarshal of binary, Unmarshal of text, UnmarshalString, Decoder.DecodeTo}; plus 11 struct-target cells with hand-written expectations (exact-then-case-insensitive field lookup, promoted fields of embedded structs three levels deep, every tag option, unknown fields) in text and binary; plus a Decoder over every stream of 0..3 values of 5 kinds followed by two extra calls. " +
+		Rule: "the full matrix of 86 Ion values (typed nulls, bools, integers at every Go width boundary ±1 up to 2^100, floats incl. beyond float32 range / inf / NaN / -0, decimals, timestamps, symbols with and without text, strings, lobs of 0/2/3/4 bytes, lists, sexps, structs incl. repeated and unknown fields, annotated values) x 38 target types (every integer width, floats, string, []byte, [3]byte, slices, arrays, maps, a struct, pointers, interface{}, Timestamp, Decimal, big.Int, SymbolToken, time.Time, annotation wrapper structs incl. the README's []string form) x {Unmarshal of binary, Unmarshal of text, UnmarshalString, Decoder.DecodeTo}; plus 11 struct-target cells with hand-written expectations (exact-then-case-insensitive field lookup, promoted fields of embedded structs three levels deep, every tag option, unknown fields) in text and binary; plus a Decoder over every stream of 0..3 values of 5 kinds followed by two extra calls; plus every matrix cell again with a target that already holds another value (scalars, slices of 5 elements, arrays, pointers, interface{}); plus one Decoder filling the same []int / []interface{} / [3]int / interface{} variable from every stream of three lists of 0..3 ints. " +
 			"Oracle from the documented mapping table: pairs outside the table must return an error; integers that do not fit the width or sign, finite floats beyond float32, textless symbols into string must return an error; pairs inside the table must succeed and the stored value must image back to the Ion value; never a panic; exactly n values then ErrNoInput. Conversions the documentation does not mention (int->float, decimal->number, timestamp->time.Time, typed null of another type, list of ints into []byte, byte arrays of another length) are exercised for panics only. " +
 			"non-trivial = the cell was executed and judged; distinct = distinct (target, verdict, outcome) digests",
 		Bounds:      map[string]string{"quick": "the whole matrix", "thorough": "the whole matrix"},
